@@ -340,6 +340,94 @@ def F18_C12_assoc_accepts_tuple_methods():
     return "assoc(inst, count=3) did not raise AttrsAttributeNotFoundError"
 
 
+class _Falsy:
+    """a callable object whose truth value is False"""
+    def __init__(self, fn):
+        self.fn = fn
+
+    def __call__(self, *a):
+        return self.fn(*a)
+
+    def __bool__(self):
+        return False
+
+
+def F24_C02_C20_falsy_validator_runs_in_init():
+    log = []
+    v = _Falsy(lambda i, a, x: log.append(x))
+
+    @attr.s
+    class A:
+        x = attr.ib(validator=v)
+
+    @attr.s(on_setattr=attr.setters.validate)
+    class B:
+        x = attr.ib(default=0, validator=v)
+
+    A(1)
+    if log != [1]:
+        return "generated __init__ did not run a falsy validator object (log %r)" % (log,)
+    b = B()
+    del log[:]
+    b.x = 5
+    if log != [5]:
+        return "setters.validate did not run a falsy validator object on assignment (log %r)" % (log,)
+    del log[:]
+    attr.validate(A(2))
+    if log != [2, 2]:
+        return "attr.validate / __init__ disagree on a falsy validator (log %r)" % (log,)
+
+    @attr.s
+    class E:
+        x = attr.ib(default=1, validator=[])
+    try:
+        attr.validate(E())
+    except TypeError:
+        return "validator=[] makes attr.validate() call a list"
+
+
+def F25_C01_falsy_key_kept_on_attribute():
+    k = _Falsy(lambda s: s.lower())
+
+    @attr.s(frozen=True, order=True)
+    class B:
+        x = attr.ib(eq=k, order=k)
+
+    a = attr.fields(B).x
+    if a.eq_key is not k or a.order_key is not k:
+        return "a falsy key callable was dropped from the Attribute"
+    if not (B("a") == B("A")) or hash(B("a")) != hash(B("A")) or not (B("a") < B("B")):
+        return "a falsy key callable is not applied by ==/hash/<"
+
+
+def F26_C02_falsy_field_hook_kept():
+    log = []
+    h = _Falsy(lambda i, a, x: (log.append(("hook", x)), x * 2)[1])
+
+    @attr.s(on_setattr=attr.setters.validate)
+    class C:
+        x = attr.ib(default=0, on_setattr=h, validator=lambda i, a, x: log.append(("clsval", x)))
+
+    c = C()
+    del log[:]
+    c.x = 3
+    if c.x != 6 or log != [("hook", 3)]:
+        return "a falsy field-level on_setattr hook was replaced by the class-level hook: x=%r log=%r" % (c.x, log)
+
+
+def F27_C01_falsy_converter_on_assignment():
+    cv = _Falsy(lambda x: int(x))
+
+    @attrs.define
+    class D:
+        x: int = attrs.field(converter=cv)
+
+    d = D("1")
+    d.x = "2"
+    if D("1").x != 1 or d.x != 2:
+        return "falsy converter: __init__ gives %r, assignment gives %r" % (D("1").x, d.x)
+
+
 ALL = {k: v for k, v in list(globals().items()) if k[0] in "FK" and k[1].isdigit()}
 
 if __name__ == "__main__":
